@@ -196,7 +196,7 @@ theorem calcUc_row (epgc : List α) (bv : List (List α)) (intensity : α) (xmap
     (calcUc epgc bv intensity xmap pvar).getD i [] =
       (List.range (ncols bv)).map fun j =>
         rsum (xmap.getD i []).length (fun p => vget epgc p * ent bv ((xmap.getD i []).getD p 0) j)
-          + intensity * HasSqrt.sqrt (ent pvar i j) := by
+          + intensity * HasSqrt.sqrt (clip0 (ent pvar i j)) := by
   unfold calcUc
   simp [List.getD_eq_getElem?_getD, hi]
 
